@@ -97,7 +97,8 @@ class Check:
             for k in json.load(open(kf_path)).get("findings", []):
                 if k.get("status") == "open" and k.get("property") == self.prop:
                     known[k["key"]] = k
-        os.makedirs(os.path.join(VERIF, "evidence", "replay"), exist_ok=True)
+        evdir = os.environ.get("VERIF_EVIDENCE_DIR") or os.path.join(VERIF, "evidence")
+        os.makedirs(os.path.join(evdir, "replay"), exist_ok=True)
         unknown = 0
         known_hit = []
         for v in self.violations:
@@ -106,7 +107,7 @@ class Check:
                 print(f"KNOWN-FINDING: property={self.prop} {known[v['key']]['what']} [{v['key']}]")
                 continue
             unknown += 1
-            rp = os.path.join(VERIF, "evidence", "replay", v["key"] + ".json")
+            rp = os.path.join(evdir, "replay", v["key"] + ".json")
             json.dump({"property": self.prop, "rule": v["rule"], "rule_text": self.rule_desc.get(v["rule"]),
                        "breaks_by": self.rule_breaks.get(v["rule"]), "site": v["site"], "location": v["loc"],
                        "message": v["msg"], "detail": v["detail"], "source_tree": os.environ.get("REMOC_SRC", "/repo")},
@@ -153,7 +154,7 @@ class Check:
             "wall_s": round(time.time() - self.t0, 2),
             "violations": unknown,
         }
-        json.dump(ev, open(os.path.join(VERIF, "evidence", f"{self.prop}.json"), "w"), indent=1)
+        json.dump(ev, open(os.path.join(evdir, f"{self.prop}.json"), "w"), indent=1)
         print(f"[{self.prop}] tier={self.tier} rules={len(self.rule_desc)} obligations={n_obl} discharged={n_ok} "
               f"inconclusive={len(self.inconclusives)} known={len(known_hit)} violations={unknown} "
               f"bodies={self.F.stats['bodies']} wall={ev['wall_s']}s")
